@@ -26,7 +26,7 @@ RESULT_WRAPPERS = ("map_err", "map", "or_else", "and_then")
 
 
 class State:
-    __slots__ = ("dirty", "ever", "snaps", "rstat", "alias", "trail")
+    __slots__ = ("dirty", "ever", "snaps", "rstat", "alias", "trail", "rec_pending")
 
     def __init__(self):
         self.dirty = set()  # tuples: ('resolver','imported_modules') / ('typechecker',)
@@ -35,6 +35,7 @@ class State:
         self.rstat = {}  # var id -> 'ok' | 'err'
         self.alias = {}  # var id -> var id (result wrappers)
         self.trail = ()  # dirtying call lines, for diagnostics
+        self.rec_pending = None  # line of a nested interpret call whose SUCCESS effects apply from the next statement on
 
     def copy(self):
         s = State()
@@ -44,6 +45,7 @@ class State:
         s.rstat = dict(self.rstat)
         s.alias = dict(self.alias)
         s.trail = self.trail
+        s.rec_pending = self.rec_pending
         return s
 
     def key(self):
@@ -53,6 +55,7 @@ class State:
             frozenset((k, v[0], v[1]) for k, v in self.snaps.items()),
             frozenset(self.rstat.items()),
             frozenset(self.alias.items()),
+            self.rec_pending,
         )
 
     def root(self, v):
@@ -272,10 +275,21 @@ class Snap:
         return states
 
     def ev_stmt(self, st, states):
+        for s_ in states:
+            if s_.rec_pending is not None:
+                # what a nested input may modify = what this very function may modify (computed by a first pass)
+                for pth in sorted(getattr(self, "nested_mods", set())):
+                    s_.dirty.add(pth)
+                    s_.ever.add(pth)
+                s_.trail = s_.trail + (s_.rec_pending,)
+                s_.rec_pending = None
         k = st.get("k")
         if k == "Let":
             init = st.get("init")
             if init is not None:
+                pi = peel(init)
+                if isinstance(pi, dict) and pi.get("k") == "MethodCall" and self.is_recursive(pi):
+                    self._bound_rec = id(pi)
                 states = self.ev(init, states)
                 binds = [b for b in walk(st["pat"]) if b.get("k") == "Binding"]
                 pat = st["pat"]
@@ -503,10 +517,15 @@ class Snap:
             else:
                 if self.is_recursive(e):
                     for st in states:
-                        self.exits.append(("inductive", st.copy(), e))
-                        # after a *successful* nested input the baseline moved
-                        for vid, (pth, valid, nm) in list(st.snaps.items()):
-                            st.snaps[vid] = (pth, False, nm)
+                        # `let r = self.f(..)`: the nested failure is examined later (`if r.is_err() { restore }`), the
+                        # obligation is checked where `r` is returned; otherwise (`?`, `return self.f(..)`) the nested
+                        # failure leaves this function at once with the state as it is here
+                        if id(e) != getattr(self, "_bound_rec", None):
+                            self.exits.append(("inductive", st.copy(), e))
+                        # seen from the OUTER input (snapshots taken before the nested call stay the right baseline), everything the nested input may define has been
+                        # modified: if the outer input fails later on, that has to be undone as well.  (Applied from
+                        # the next statement on: the `?` of this very call is the nested input's own failure.)
+                        st.rec_pending = line
                 else:
                     cb = self.crate.hir.get(c) if c else None
                     if cb is not None and cb.get("param_tys") and cb["param_tys"][0].startswith("&mut"):
@@ -592,7 +611,16 @@ def rule_snap(crate, fn_suffix, exempt, exempt_never_assigned=(), floors=None):
     file = crate.file_of(fn)
     short = fn_suffix
     ms = ModSets(crate)
+    # pass 1: which components can one interpretation modify at all?
+    sn1 = Snap(crate, fn, exempt, ms)
+    sn1.nested_mods = set()
+    sn1.run()
+    mods = set()
+    for _kind, st_, _node in sn1.exits:
+        mods |= set(st_.ever)
+    # pass 2: a successful nested interpretation modifies those components of the outer one
     sn = Snap(crate, fn, exempt, ms)
+    sn.nested_mods = mods
     sn.run()
     # exempt rows that rely on "never assigned after construction" are re-checked
     for (adt, field, path) in exempt_never_assigned:
